@@ -6,6 +6,7 @@ import itertools
 import numpy as np
 
 import core
+import boundscheck
 import findings
 import gen
 import impl
@@ -196,6 +197,7 @@ def run(ctx):
     rng = gen.rng_for(ctx.seed, PID)
     leg_a(ctx, rng, 600 if ctx.quick else 6000)
     leg_c(ctx, rng, 150 if ctx.quick else 2000)
+    boundscheck.leg(ctx, PID, 25 if ctx.quick else 400, classify=findings.classify)  # memory safety of the compiled kernels
     ctx.cov["rule"] = ("T1 grid: (start,stop,step,dim) boxes, generated vs Python; leg A: random COO (rank 0-4) x random index tuple from the "
                        "grammar, model vs implementation on representation; leg C: COO/GCXS/DOK vs NumPy incl. scalar rule and IndexError; "
                        "non-trivial = array stores at least one element; distinct by content hash")
